@@ -26,6 +26,24 @@ PROP_FAMILY = {
     "C10": ["stake", "limiter"], "C11": ["stake", "limiter"], "C12": ["stake"], "C13": ["stake"], "C14": ["stake", "gov"],
     "C15": ["gov"], "C19": ["value"], "C07": ["restart"], "C06": ["mempool"],
 }
+# thorough tier per property: (family, blocks, transactions per block); measured (16 cores, uncontended): value 2x2 2 min, 4x1 11 min,
+# stake 4x1 6 min, limiter 2x2 8 min, gov 4x1 1 min, 5x1 8 min, restart 4x1 20 s, 3x2 2 min, mempool 2x1 1 min
+PROP_THOROUGH = {
+    "C02": [("value", 2, 2), ("value", 4, 1), ("stake", 3, 1)],
+    "C03": [("value", 2, 2), ("value", 4, 1)],
+    "C04": [("value", 2, 2), ("value", 4, 1)],
+    "C05": [("value", 2, 2), ("limiter", 2, 2), ("gov", 4, 1)],
+    "C16": [("value", 2, 2), ("gov", 5, 1)],
+    "C10": [("stake", 4, 1), ("limiter", 2, 2)],
+    "C11": [("stake", 4, 1), ("limiter", 2, 1)],
+    "C12": [("stake", 4, 1)],
+    "C13": [("stake", 4, 1)],
+    "C14": [("stake", 4, 1), ("gov", 4, 1)],
+    "C15": [("gov", 5, 1)],
+    "C19": [("value", 2, 2), ("value", 3, 1)],
+    "C07": [("restart", 4, 1), ("restart", 3, 2)],
+    "C06": [("mempool", 2, 1)],
+}
 SPECS = ("BigNat.tla", "RigoProps.tla", "RigoMon.tla", "RigoCore.tla", "MC_Rigo.tla")
 
 
@@ -74,9 +92,13 @@ def for_prop(prop):
     def go(tier):
         states = trans = 0
         runs = []
-        for fam in ([f for f in fams if f == fams[0] or f == "limiter"] if tier == "quick" else fams):
+        if tier == "quick":
+            plan = [(f,) + FAMILY[f][2] for f in fams if f == fams[0] or f == "limiter"]
+        else:
+            plan = PROP_THOROUGH.get(prop) or [(f, b, t) for f in fams for (b, t) in FAMILY[f][3]]
+        for (fam, b, t) in plan:
             _, cfgname, quick, thorough = FAMILY[fam]
-            for (b, t) in ([quick] if tier == "quick" else thorough):
+            for _ in (0,):
                 res = run_family(fam, b, t, coverage=False)
                 states += res.distinct
                 trans += res.generated
